@@ -431,6 +431,9 @@ func record(c Case) {
 		if total >= 1<<20 {
 			cls = append(cls, "msg>=2^20bytes")
 		}
+		if total >= 1<<24 {
+			cls = append(cls, "msg>=2^24bytes")
+		}
 		if total/4 >= 1<<16 {
 			cls = append(cls, "msg>=2^16words")
 		}
@@ -647,6 +650,18 @@ func TestC08(t *testing.T) {
 						p := run.ViolationNamed(fmt.Sprintf("biglen%d-%v", l, abr), c, err.Error())
 						t.Fatalf("violation (replay %s): %v", p, err)
 					}
+				}
+			}
+		}
+		// around 2^24 bytes: the abridged header counts words, 2^22 of them here
+		for _, abr := range []bool{false, true} {
+			for _, l := range []int{1<<24 - 4, 1 << 24, 1<<24 + 4} {
+				c := Case{Kind: "format", Abridged: abr, Seed: 79, Lens: []int{l, 8}}
+				record(c)
+				n++
+				if err := oracle(c); err != nil {
+					p := run.ViolationNamed(fmt.Sprintf("len%d-%v", l, abr), c, err.Error())
+					t.Fatalf("violation (replay %s): %v", p, err)
 				}
 			}
 		}
